@@ -83,6 +83,13 @@ CHECKS = {
         "note": "decompose routing/flags, Gamma for Theory, tau*/mu correctness not covered.",
         "technique": "contract-based deductive verification (Verus) of mechanically extracted real code",
     },
+    "C02": {
+        "text": "Partial: Verus proves the routing of annotated formulas into stable/forward/backward premises and conclusions (per role, direction annotation and eq-break flag) on the real ValidatedExternalEquivalenceTask::decompose. "
+                "The translation glue before it and the problem assembly after it are outside Verus' subset and are not decided, nor is the meaning-level statement of C02.",
+        "design_ref": "DESIGN.md §5 C02",
+        "note": "break_equivalences_annotated_formula and Assembled::decompose are stand-ins with assumed contracts; ExternalEquivalenceTask::decompose not verified; D19.",
+        "technique": "contract-based deductive verification (Verus) of mechanically extracted real code",
+    },
     "C09": {
         "text": "Only the uniqueness-of-formula-names clause is decided by a Verus proof on the real create_unique_formula_names (and add_theory's ordering); the declaration/typing clauses exist only as fmt output and are not covered.",
         "design_ref": "DESIGN.md §5 C09, §6",
